@@ -454,12 +454,35 @@ def loop_header(stmt):
     return {"var": mm.group(1), "init": squeeze(mm.group(2)), "cond": squeeze(mm.group(3)), "step": squeeze(mm.group(4)), "body": stmt[q + 1:]}
 
 
+def iteration_dependent(body, loopvar):
+    """variables whose value is derived from the work-sharing loop variable: declared with an initialiser that mentions a derived
+    variable, or counters of inner loops whose bounds mention one (closure)"""
+    derived = {loopvar}
+    decls = [(m.group(1), m.group(2)) for m in re.finditer(r"\b([A-Za-z_]\w*)\s*(?:\[[^\]]*\])?\s*=\s*([^;]+);", body)]
+    loops = []
+    for m in re.finditer(r"\bfor\s*\(", body):
+        q = match_close(body, m.end() - 1, "(", ")")
+        head = body[m.end():q]
+        mm = re.match(r"\s*(?:const\s+)?[\w:<>]+\s*[&\*]?\s*([A-Za-z_]\w*)\s*(=|:)(.*)$", head, re.S)
+        if mm:
+            loops.append((mm.group(1), mm.group(3)))
+    changed = True
+    while changed:
+        changed = False
+        for name, init in decls + loops:
+            if name not in derived and mentions(init, derived):
+                derived.add(name)
+                changed = True
+    return derived
+
+
 def classify_for(stmt, region_private, func_name, base_name, func_text, enclosing_loops):
     h = loop_header(stmt)
     if h is None:
         return "Unmatched", "work-sharing loop whose header is not `for(int i = a; i < b; i++)`"
     body = h["body"]
     private = set(region_private) | declared_names(body) | {h["var"]}
+    owned_by = iteration_dependent(body, h["var"])
     writes = []          # (container, index groups or None or "?", how)
     for base, idx, op, decl in find_assignments(body):
         if not decl:
@@ -521,10 +544,10 @@ def classify_for(stmt, region_private, func_name, base_name, func_text, enclosin
             shared_plain.append("%s (%s)" % (squeeze(base)[:40], how))
             continue
         first = idx[0]
-        if not mentions(first, private):
+        if not mentions(first, owned_by):
             if how == "argument":
                 continue        # a slot that does not depend on the iteration, passed to a call: read-only input by assumption
-            shared_plain.append("%s[%s] (%s; the index does not depend on the iteration)" % (base, first, how))
+            shared_plain.append("%s[%s] (%s; the index does not depend on the iteration of the work-sharing loop)" % (base, first, how))
             continue
         if "[" in first or "getStrip" in first:
             indirect.append("%s[%s]" % (base, first))
@@ -570,9 +593,17 @@ def split_args(s):
 def classify_region(block_inner, func_text):
     private = set()
     problems = []
-    for st in split_statements(block_inner):
+    todo = list(split_statements(block_inner))
+    while todo:
+        st = todo.pop(0)
         s = squeeze(st)
         if s.startswith("#pragma omp"):
+            continue
+        if s.startswith("{"):
+            inner_block = st.strip()[1:-1]
+            if "#pragma omp" in inner_block:
+                continue
+            todo = split_statements(inner_block) + todo      # a plain block: its statements are region-level statements
             continue
         names = declared_names(";" + st)
         head = re.match(r"^(if|for|while|switch)\b", s)
